@@ -203,12 +203,14 @@ def report(run, ex, pkgdir, pkgname, harness_files, entry, res, keyfn=None, labe
         draws = model_draws(r.state, model)
         try:
             failed, panicked, out = replay_native(pkgdir, pkgname, harness_files, entry, draws)
-            ok = (r.status == 'assert' and msg in failed) or (r.status == 'panic' and panicked)
+            # the harness assertions are statements of the property and the native run is the real build: any of them failing there is a
+            # violation, whether or not it is the one the model pointed at
+            ok = (r.status == 'assert' and bool(failed)) or (r.status == 'panic' and (panicked or bool(failed)))
             # the model interprets uninterpreted library predicates freely: when it does not replay, try the other dictionary models
             for alt in (r.info.get('alt_models', []) if (r.status == 'assert' and not ok) else []):
                 d2 = model_draws(r.state, alt)
                 f2, p2, o2 = replay_native(pkgdir, pkgname, harness_files, entry, d2)
-                if msg in f2:
+                if f2:
                     draws, failed, panicked, out, ok = d2, f2, p2, o2, True
                     break
         except subprocess.TimeoutExpired:
@@ -216,6 +218,8 @@ def report(run, ex, pkgdir, pkgname, harness_files, entry, res, keyfn=None, labe
             continue
         if ok:
             key = keyfn(entry, msg, draws) if keyfn else '%s:%s' % (entry, msg[:60])
+            if r.status == 'assert' and msg not in failed:
+                msg = '%s [natively: %s]' % (msg, failed[0])
             run.violation('%s: %s -- reproduced natively (go test -overlay) with draws %s' % (label or entry, msg, json.dumps(draws)[:400]),
                           {'harness': entry, 'package_dir': pkgdir, 'assertion': msg, 'draws': draws, 'harness_files': list(harness_files), 'native_output_tail': out[-1500:]}, key=key)
         else:
